@@ -1,3 +1,136 @@
-import OptreeModel.Model.Eval
+/-
+  C02  Leaf order and node/leaf classification follow the documented rules.
+  Helper lemmas: Lemmas/Leaves.lean (reference order `leavesOf`, homomorphism lemma), Lemmas/Sort.lean.
+-/
+import OptreeModel.Lemmas.Leaves
+
 namespace Optree
+
+/-- **Leaf order.**  Whenever flattening succeeds, the leaves are exactly the documented depth-first
+left-to-right order `leavesOf` (sequences by position, OrderedDict by insertion order, dict /
+defaultdict by `totalOrderSort` unless the namespace is insertion-ordered, custom nodes in yield
+order, predicate first, exact-type registry lookup, `None` by `none_is_leaf`) — for every tree,
+registry, namespace, predicate and depth limit. -/
+theorem C02_leaf_order (cfg : Cfg) (t : PyObj) (ls : List PyObj) (sp : Spec)
+    (h : flatten cfg t = .ok (ls, sp)) : ls = leavesOf cfg (!cfg.insertionOrdered) t := by
+  unfold flatten at h
+  simp only at h
+  split at h
+  · simp at h
+  · rename_i out hout
+    simp only [Except.ok.injEq, Prod.mk.injEq] at h
+    rw [← h.1]
+    exact lobj cfg _ t 0 out hout
+
+/-- the engine-level statement, at any depth and in either dict-order mode -/
+theorem C02_leaf_order_go (cfg : Cfg) (sorted : Bool) (d : Nat) (t : PyObj) (out : FlatOut)
+    (h : flattenGo cfg sorted d t = .ok out) : out.leaves = leavesOf cfg sorted t :=
+  lobj cfg sorted t d out h
+
+/-! ### the key order -/
+
+/-- sorting only permutes the keys -/
+theorem C02_sort_perm (ks : List Key) : (totalOrderSort ks).Perm ks :=
+  totalOrderSortOn_perm id ks
+
+/-- when neither the direct sort nor the (type name, key) sort is possible the keys stay in
+insertion order -/
+theorem C02_sort_fallback (ks : List Key) (h1 : stage1Ok ks = false) (h2 : stage2Ok ks = false) :
+    totalOrderSort ks = ks := by
+  simp [totalOrderSort, totalOrderSortOn, h1, h2]
+
+/-- OrderedDict children are never re-ordered; dict / defaultdict children are re-ordered only in
+sorted mode -/
+theorem C02_dictOrder_cases {α : Type} (od sorted : Bool) (items : List (Key × α)) :
+    dictOrder od sorted items =
+      if !od && sorted then totalOrderSortOn (·.1) items else items := rfl
+
+/-! ### node / leaf classification -/
+
+/-- opaque objects (including sub-class instances of built-in containers) are leaves -/
+theorem C02_kind_leaf (cfg : Cfg) (ty uid : Nat) : getKind cfg (.leaf ty uid) = (.leaf, Option.none) := rfl
+
+/-- `None` is a childless node unless `none_is_leaf` -/
+theorem C02_kind_none (cfg : Cfg) :
+    getKind cfg .none = if cfg.noneIsLeaf then (.leaf, Option.none) else (.none, Option.none) := rfl
+
+/-- an instance of a user class is an internal node iff its exact type is registered in the
+requested namespace or globally -/
+theorem C02_kind_user (cfg : Cfg) (c : TypeId) (m : Option Key) (q : Quirk) (xs : List PyObj) :
+    (getKind cfg (.user c m q xs)).1 = .custom ↔ (cfg.reg.lookup cfg.ns 0 c).isSome := by
+  simp only [getKind]
+  cases cfg.reg.lookup cfg.ns 0 c <;> simp
+
+/-- a registration in the requested namespace shadows the global one -/
+theorem C02_lookup_namespace_first (r : Registry) (ns : String) (ck : Nat) (c : TypeId) (reg : Reg)
+    (hns : ns ≠ "")
+    (h : (r.named.find? fun e => e.1 == ns && e.2.1 == c && e.2.2.1 == ck) = some (ns, c, ck, reg)) :
+    r.lookup ns ck c = some reg := by
+  simp [Registry.lookup, hns, h]
+
+/-- a predicate that returns true makes the object a leaf before any registry lookup -/
+theorem C02_pred_first (cfg : Cfg) (sorted : Bool) (d : Nat) (x : PyObj) (hd : d ≤ cfg.maxDepth)
+    (hp : cfg.evalPred x = .ok true) : flattenGo cfg sorted d x = .ok (leafOut x) := by
+  have hd' : ¬ d > cfg.maxDepth := by omega
+  cases x <;> rw [flattenGo] <;> simp [hd', hp]
+
+/-! ### consequences -/
+
+theorem leavesOf_of_predTrue (cfg : Cfg) (s : Bool) (x : PyObj) (h : cfg.predTrue x = true) :
+    leavesOf cfg s x = [x] := by
+  cases x <;> simp [leavesOf, h]
+
+theorem predTrue_nil (cfg : Cfg) (b : Bool) (x : PyObj) :
+    ({ cfg with noneIsLeaf := b } : Cfg).predTrue x = cfg.predTrue x := rfl
+
+theorem beq_none_iff (x : PyObj) : (x == PyObj.none) = true ↔ x = .none := by
+  cases x <;> simp [BEq.beq, PyObj.beq]
+
+/-- **None filter.**  If the predicate does not claim `None`, the `none_is_leaf=False` leaves are
+exactly the `none_is_leaf=True` leaves with the `None` objects removed. -/
+theorem C02_none_filter (cfg : Cfg) (s : Bool) (t : PyObj) (hnone : cfg.predTrue .none = false) :
+    (leavesOf { cfg with noneIsLeaf := true } s t).filter (fun x => !(x == PyObj.none)) =
+      leavesOf { cfg with noneIsLeaf := false } s t := by
+  apply hobj (F := fun ls => ls.filter (fun x => !(x == PyObj.none)))
+  refine ⟨rfl, fun a b => List.filter_append .., rfl, rfl, ?_, ?_, ?_, ?_, ?_⟩
+  · intro x hx
+    rw [predTrue_nil] at hx
+    have hne : ¬ (x == PyObj.none) = true := by
+      rw [beq_none_iff]
+      intro e; subst e; rw [hnone] at hx; exact Bool.noConfusion hx
+    rw [leavesOf_of_predTrue _ _ _ (by rw [predTrue_nil]; exact hx)]
+    simp [hne]
+  · intro x hx; rw [predTrue_nil] at hx ⊢; exact hx
+  · intro ty uid _; simp [BEq.beq, PyObj.beq]
+  · intro c m q xs _ _; simp [BEq.beq, PyObj.beq]
+  · intro _; simp [BEq.beq, PyObj.beq]
+
+/-- **Predicate refinement.**  Flattening (without the predicate) the leaves obtained under a
+predicate yields the leaves obtained without it. -/
+theorem C02_pred_refines (cfg : Cfg) (s : Bool) (t : PyObj) :
+    (leavesOf cfg s t).flatMap (leavesOf { cfg with pred := Option.none } s) =
+      leavesOf { cfg with pred := Option.none } s t := by
+  apply hobj (F := fun ls => ls.flatMap (leavesOf { cfg with pred := Option.none } s))
+  have hnp : ∀ x, ({ cfg with pred := Option.none } : Cfg).predTrue x = false := by
+    intro x; simp [Cfg.predTrue, Cfg.evalPred]
+  refine ⟨rfl, fun a b => List.flatMap_append .., rfl, rfl, ?_, ?_, ?_, ?_, ?_⟩
+  · intro x _; simp
+  · intro x _; exact hnp x
+  · intro ty uid _; simp [leavesOf]
+  · intro c m q xs _ hl
+    simp only [List.flatMap_cons, List.flatMap_nil, List.append_nil, leavesOf, hnp]
+    simp [hl]
+  · intro _
+    by_cases hn : cfg.noneIsLeaf = true <;> simp [hn, leavesOf, hnp]
+
+/-! ### non-vacuity -/
+
+/-- mixed key types sort by (type name, key); two unorderable objects of one class fall back to
+insertion order -/
+example : totalOrderSort [.str "b", .int 3, .str "a", .int 1] = [.int 1, .int 3, .str "a", .str "b"] := by
+  decide
+example :
+    totalOrderSort [.obj "vk.KU" false 0 1, .int 3, .obj "vk.KU" false 0 2, .int 1] =
+      [.obj "vk.KU" false 0 1, .int 3, .obj "vk.KU" false 0 2, .int 1] := by decide
+
 end Optree
